@@ -129,6 +129,8 @@ static t_bidib_segment_state_intern sb_segment_state(const char *id) {
 		if (i >= n) continue;
 		t_bidib_dcc_address a; a.addrl = ND_u8("seg_addrl"); a.addrh = ND_u8("seg_addrh"); a.type = ND_u8("seg_addrtype");
 		VASSUME(a.addrh <= 0x3F && a.type <= 3);
+		/* INV: a segment lists a decoder once (an address report names each detected decoder once; C08 harness assumes the same of reports) */
+		if (i > 0) { t_bidib_dcc_address *p0 = &g_array_index(s.dcc_addresses, t_bidib_dcc_address, 0); VASSUME(p0->addrl != a.addrl || p0->addrh != a.addrh); }
 		SB_PUSH(s.dcc_addresses, t_bidib_dcc_address, a);
 	}
 	return s;
